@@ -182,7 +182,7 @@ theorem is_shared_core_depth_proper (r comps : Path) (hr : r ≠ []) :
 
 example : (["srv".toList, "proj".toList] : Path) ≠ [] := by decide
 
-/-- ✗ the heuristic is not complete: concrete layouts `proj/core`, `proj/a/core` (recognised) and
+/-- The old heuristic ALONE (`isSharedCore`, still the first test of the code) is not complete: concrete layouts `proj/core`, `proj/a/core` (recognised) and
     `proj/x/y/core`, `proj/x/y/z/core` (core packages `x.y.core`, `x.y.z.core`: NOT recognised). -/
 theorem is_shared_core_depth3_counterexample :
     let root : Path := ["srv".toList, "proj".toList]
@@ -203,5 +203,41 @@ theorem is_shared_core_deep_false (r comps : Path) (h : 3 ≤ comps.length) :
     · omega
     · omega
     · subst h1; simp at h
+
+/-! ## `_is_shared_core(core_dir, client_package_name)` since the repair of F22 -/
+
+/-- COMPLETE: whenever the core directory is neither the directory of the client package being generated nor inside it, the emitter
+    takes the registry path - at EVERY depth (`x.y.core`, `x.y.z.core`, …), for every project root. -/
+theorem is_shared_core_complete (r coreDir : Path) (c : Str) (cs : Path)
+    (h : (r ++ (c :: cs)).isPrefixOf coreDir = false) : isSharedCoreFor (some r) coreDir (some (c :: cs)) = true := by
+  simp [isSharedCoreFor, h]
+
+/-- … and it still answers `True` wherever the old heuristic did. -/
+theorem is_shared_core_for_extends (root : Option Path) (d : Path) (cl : Option Path) (h : isSharedCore root d = true) :
+    isSharedCoreFor root d cl = true := by
+  cases root with
+  | none => simp [isSharedCore] at h
+  | some r =>
+    simp only [isSharedCore, Bool.or_eq_true] at h
+    simp only [isSharedCoreFor, Bool.or_eq_true]
+    exact Or.inl h
+
+/-- A core package EMBEDDED three or more levels deep in its own client package is (still) not a shared core. -/
+theorem embedded_deep_core_not_shared (r : Path) (c : Str) (cs rest : Path) (h : 3 ≤ (c :: cs).length + rest.length) :
+    isSharedCoreFor (some r) (r ++ ((c :: cs) ++ rest)) (some (c :: cs)) = false := by
+  have hp : (r ++ (c :: cs)).isPrefixOf (r ++ ((c :: cs) ++ rest)) = true := by
+    rw [List.isPrefixOf_iff_prefix, ← List.append_assoc]; exact List.prefix_append _ _
+  have hold := is_shared_core_deep_false r ((c :: cs) ++ rest) (by rw [List.length_append]; exact h)
+  simp only [isSharedCore, Bool.or_eq_false_iff] at hold
+  unfold isSharedCoreFor
+  simp only [hold.1, hold.2, hp, Bool.not_true, Bool.or_self]
+
+/-- The layouts of the former counterexample: `proj/x/y/core` and `proj/x/y/z/core` shared by clients `client_a`, `x.y.api`. -/
+theorem is_shared_core_deep_layouts :
+    let root : Path := ["srv".toList, "proj".toList]
+    isSharedCoreFor (some root) (root ++ ["x".toList, "y".toList, "core".toList]) (some ["client_a".toList]) = true ∧
+    isSharedCoreFor (some root) (root ++ ["x".toList, "y".toList, "z".toList, "core".toList]) (some ["x".toList, "y".toList, "api".toList]) = true ∧
+    isSharedCoreFor (some root) (root ++ ["pkg".toList, "client".toList, "core".toList]) (some ["pkg".toList, "client".toList]) = false := by
+  decide
 
 end Pog.C11
